@@ -703,6 +703,52 @@ def persist_rule(key, factory):
     return _RULES[key]
 
 
+_FLAGS_INSTALLED = False
+
+
+def install_flag_variation():
+    """boolean configuration flags (zero_indexed, resident_oriented, memoize) often arrive as numpy booleans (the result of a comparison on
+    arrays) rather than as Python bools: in every third construction of a library object the harness passes its bool arguments as numpy.bool_.
+    Installed in the worker processes only; it changes how the harness CALLS the library, not the library."""
+    global _FLAGS_INSTALLED
+    if _FLAGS_INSTALLED or os.environ.get("VERIF_NO_FLAG_VARIATION"):
+        return
+    _FLAGS_INSTALLED = True
+    import importlib, inspect, functools
+    import numpy as np
+    counter = [0]
+    mods = ["deterministic_allocation", "deterministic_matching", "deterministic_multiround", "deterministic_scoring", "deterministic_tournament",
+            "elicitation_allocation", "elicitation_matching", "elicitation_utils", "elicitation_voting", "randomized_allocation", "randomized_scoring"]
+    for m in mods:
+        try:
+            mod = importlib.import_module("socialchoicekit." + m)
+        except Exception:  # noqa
+            continue
+        for name, cls in list(vars(mod).items()):
+            if not inspect.isclass(cls) or getattr(cls, "__module__", None) != mod.__name__ or "__init__" not in vars(cls):
+                continue
+            orig = cls.__init__
+            try:
+                params = inspect.signature(orig).parameters
+            except (TypeError, ValueError):
+                continue
+            if not any(isinstance(p.default, bool) for p in params.values()):
+                continue
+
+            def make(orig):
+                cnt = [0]      # per class; the FIRST construction in a worker is varied (a worker often builds each rule object only once)
+
+                @functools.wraps(orig)
+                def init(self, *a, **k):
+                    cnt[0] += 1
+                    if (cnt[0] - 1) % 3 == 0:
+                        a = tuple(np.bool_(x) if isinstance(x, bool) else x for x in a)
+                        k = {kk: (np.bool_(v) if isinstance(v, bool) else v) for kk, v in k.items()}
+                    return orig(self, *a, **k)
+                return init
+            cls.__init__ = make(orig)
+
+
 def nonliteral(s):
     """an equal but not interned copy of a string argument (as it would arrive from json, argv, a config file)"""
     return "".join(list(s)) if isinstance(s, str) else s
